@@ -170,6 +170,12 @@ trait EncodingVersion: Sized {
         deserializer: &mut XTypesDeserializer<'a, E, Self>,
         dynamic_data: &mut DynamicData,
     ) -> XTypesResult<()>;
+
+    /// Serialization Rule (29) & (30) for unions
+    fn deserialize_appendable_union_type<'a, E: EndiannessRead>(
+        deserializer: &mut XTypesDeserializer<'a, E, Self>,
+        dynamic_data: &mut DynamicData,
+    ) -> XTypesResult<()>;
 }
 
 fn get_discriminator_id_as_i32(v: &DynamicData) -> XTypesResult<i32> {
@@ -368,6 +374,14 @@ impl EncodingVersion for EncodingVersion1 {
         dynamic_data: &mut DynamicData,
     ) -> XTypesResult<()> {
         deserializer.deserialize_fstruct_type(dynamic_data)
+    }
+
+    /// (29) XCDR[1] << {O : APPENDABLE_TYPE} = XCDR << { O : AsFinal(O.type) }  (no DHEADER)
+    fn deserialize_appendable_union_type<'a, E: EndiannessRead>(
+        deserializer: &mut XTypesDeserializer<'a, E, Self>,
+        dynamic_data: &mut DynamicData,
+    ) -> XTypesResult<()> {
+        deserializer.deserialize_funion_type(dynamic_data)
     }
 }
 
@@ -572,6 +586,15 @@ impl EncodingVersion for EncodingVersion2 {
     ) -> XTypesResult<()> {
         let _dheader = deserializer.deserialize_primitive_type::<u32>();
         deserializer.deserialize_fstruct_type(dynamic_data)
+    }
+
+    /// (30) XCDR[2] << {O : APPENDABLE_TYPE} = XCDR << { DHEADER(O) } << { O : AsFinal(O.type) }
+    fn deserialize_appendable_union_type<'a, E: EndiannessRead>(
+        deserializer: &mut XTypesDeserializer<'a, E, Self>,
+        dynamic_data: &mut DynamicData,
+    ) -> XTypesResult<()> {
+        let _dheader = deserializer.deserialize_primitive_type::<u32>()?;
+        deserializer.deserialize_funion_type(dynamic_data)
     }
 }
 
@@ -835,8 +858,7 @@ impl<'a, E: EndiannessRead, V: EncodingVersion> XTypesDeserializer<'a, E, V> {
             TypeKind::UNION => match descriptor.extensibility_kind {
                 ExtensibilityKind::Final => self.deserialize_funion_type(&mut dynamic_data)?,
                 ExtensibilityKind::Appendable => {
-                    let _dheader = self.deserialize_primitive_type::<u32>()?;
-                    self.deserialize_funion_type(&mut dynamic_data)?
+                    V::deserialize_appendable_union_type(self, &mut dynamic_data)?
                 }
                 ExtensibilityKind::Mutable => V::deserialize_munion_type(self, &mut dynamic_data)?,
             },
